@@ -396,13 +396,18 @@ impl VariablesState {
             let loaded_token = jobj.get(k);
 
             if let Some(loaded_token) = loaded_token {
-                self.global_variables.insert(
-                    k.to_string(),
-                    json_read::jtoken_to_runtime_object(loaded_token, None)?
-                        .into_any()
-                        .downcast::<Value>()
-                        .unwrap(),
-                );
+                let loaded_value = match json_read::jtoken_to_runtime_object(loaded_token, None)?
+                    .into_any()
+                    .downcast::<Value>()
+                {
+                    Ok(value) => value,
+                    Err(_) => {
+                        return Err(StoryError::BadJson(format!(
+                            "variable '{k}' does not hold a value"
+                        )));
+                    }
+                };
+                self.global_variables.insert(k.to_string(), loaded_value);
             } else {
                 self.global_variables.insert(k.clone(), v.clone());
             }
